@@ -36,8 +36,8 @@ type Cfg struct {
 	Kind   int    `json:"kind"`
 	P1     int    `json:"p1"` // rule parameter (threshold etc.)
 	P2     int    `json:"p2"`
-	Others []int  `json:"others"` // parameters of the initial never-blocking rules of the same module and resource
-	RPos   int    `json:"r_pos"`  // position of R in the initial list
+	Others []int  `json:"others"`          // parameters of the initial never-blocking rules of the same module and resource
+	RPos   int    `json:"r_pos"`           // position of R in the initial list
 	RDup   bool   `json:"r_dup,omitempty"` // the initial list holds R twice (both copies are unchanged rules of every reload)
 }
 
@@ -50,7 +50,7 @@ func (P) Engine() string { return "E1" }
 
 func (P) Describe() harness.Description {
 	return harness.Description{
-		MustHit: []string{"unchanged_rule_listed_twice", "reload_compound", "reload_whole_set", "reload_per_resource", "reload_reorders", "reload_modifies_other_with_same_stat_params", "trace_has_block_and_admit", "modified_rule_keeps_statistics"},
+		MustHit: []string{"rule_modified_neutrally_keeps_counters", "unchanged_rule_listed_twice", "reload_compound", "reload_whole_set", "reload_per_resource", "reload_reorders", "reload_modifies_other_with_same_stat_params", "trace_has_block_and_admit", "modified_rule_keeps_statistics"},
 		Level:   "exploration",
 		Rule: "case = (kind of the unchanged rule R: flow throttling / warm-up / reject with a private window, circuit breaker, hotspot QPS, hotspot concurrency; 0-2 never-blocking rules of the same module on the same resource; 20-80 traffic ops (requests with arguments, holds, completions with errors, ticks) with 1-4 reloads inserted, each a compound of 1-3 edits: each keeps R field-for-field identical (fresh object) and adds / removes / modifies (also with unchanged statistic parameters) / reorders the others, or duplicates R where that is behaviour-neutral; whole-set and per-resource paths). " +
 			"Run A executes the history without the reloads, run B with them, after a full reset of process-global state; the decision traces (admit / block type / requested wait) on R's resource must be identical. A second oracle modifies R itself keeping its statistic parameters (private-window flow rule: threshold change) and requires the decisions to equal a model whose window keeps the pre-reload counts. " +
@@ -178,9 +178,14 @@ type lst struct {
 	rpos   int
 	dup    bool
 	rDelta int // modification of R itself (standalone kind only): threshold += rDelta
+	// rSpec: behaviour-neutral modification of R itself (hotspot kinds): a specific item for a value no request
+	// ever carries. R keeps its statistic parameters, so it must keep its counters, so the trace must not change.
+	rSpec bool
 }
 
-func (l *lst) clone() *lst { return &lst{append([]int{}, l.others...), l.rpos, l.dup, l.rDelta} }
+func (l *lst) clone() *lst {
+	return &lst{append([]int{}, l.others...), l.rpos, l.dup, l.rDelta, l.rSpec}
+}
 
 func load(o *harness.Outcome, step int, cfg *Cfg, l *lst, perRes bool) {
 	harness.Call(o, "C14.load-panicked", step, func() {
@@ -229,14 +234,21 @@ func load(o *harness.Outcome, step int, cfg *Cfg, l *lst, perRes bool) {
 			}
 		default:
 			var rules []*hotspot.Rule
+			mkR := func() *hotspot.Rule {
+				r := hotR(cfg)
+				if l.rSpec {
+					r.SpecificItems = map[interface{}]int64{"never-requested": 1000000}
+				}
+				return r
+			}
 			for i, p := range l.others {
 				if i == l.rpos {
-					rules = append(rules, hotR(cfg))
+					rules = append(rules, mkR())
 				}
 				rules = append(rules, hotOther(cfg, p, i))
 			}
 			if l.rpos >= len(l.others) {
-				rules = append(rules, hotR(cfg))
+				rules = append(rules, mkR())
 			}
 			if l.dup {
 				rules = append(rules, hotR(cfg))
@@ -281,7 +293,11 @@ func applyEdit(cfg *Cfg, o *harness.Outcome, n *lst, en, em uint64, step int, mo
 			n.dup = !n.dup
 			o.Probe("reload_duplicates_r")
 		}
-	case 6: // modify R itself keeping its statistic parameters (private-window flow rule only)
+	case 6: // modify R itself keeping its statistic parameters
+		if (cfg.Kind == kHotQPS || cfg.Kind == kHotConc) && !n.dup {
+			n.rSpec = !n.rSpec
+			o.Probe("rule_modified_neutrally_keeps_counters")
+		}
 		if cfg.Kind == kStandalone && !n.dup {
 			n.rDelta = int(em) - 3
 			if cfg.P1+n.rDelta < 0 {
